@@ -19,6 +19,7 @@ func genExpr(outDir string) {
 	specAccum()
 	specIncentives()
 	specCL()
+	specKeepers()
 	writeFnFiles(outDir)
 }
 
